@@ -133,6 +133,11 @@ type caseCfg struct {
 	WtSole  bool
 	WtKind2 string
 	WtSole2 bool
+	// lfs.fetchinclude: kind {unset, some, none, all}, the patterns, and where it is set {local, global, dash-c, env,
+	// lfsconfig}. Expectation: no influence whatsoever on what prune retains.
+	IncludeKind string
+	Include     []string
+	IncludeVia  string
 	// prune reached through `git lfs fetch --prune` (faults.go)
 	FetchRuns []fetchRun
 	// flag sets of the runs on the deliberately damaged repository (the kind of damage depends on the state, see planDamage)
@@ -237,6 +242,22 @@ func genCfg(run *evid.Run, r *rand.Rand, idx int) caseCfg {
 	}
 	r5 := rand.New(rand.NewSource(mix(run.Seed, idx, 5)))
 	c.WtKind, c.WtSole, c.WtKind2, c.WtSole2 = genWorktreeKinds(run.Seed, idx, r5)
+	// index-driven (7 kinds against the periods 18, 8 and 3), crossed with the drawn lfs.fetchexclude
+	rot7 := int(uint64(run.Seed) % 7)
+	c.IncludeKind = []string{"unset", "some", "none", "some", "all", "unset", "none"}[(idx+rot7+3)%7]
+	r7 := rand.New(rand.NewSource(mix(run.Seed, idx, 11)))
+	switch c.IncludeKind {
+	case "some": // matches part of the paths the generators use
+		c.Include = [][]string{{"a/"}, {"*.dat"}, {"n/", "c d/"}, {"a/b/"}, {"f1.bin", "sub/"}, {"c d/*"}}[r7.Intn(6)]
+	case "none":
+		c.Include = [][]string{{"assets/*"}, {"no/such/dir/"}, {"*.psd", "media/**"}}[r7.Intn(3)]
+	case "all":
+		c.Include = [][]string{{"*"}, {"**"}, {"*.bin", "*.dat"}}[r7.Intn(3)]
+	}
+	c.IncludeVia = "none"
+	if c.IncludeKind != "unset" {
+		c.IncludeVia = []string{"local", "lfsconfig", "dash-c", "global", "env"}[(idx/7+idx+rot7)%5]
+	}
 	c.FetchRuns = genFetchRuns(run.Seed, idx, c.Remote)
 	c.DamageFlagsets = [][]string{{}, [][]string{{"--verify-remote", "--when-unverified=continue"}, {"--recent"}, {"--force"}, {"--verify-remote"}}[(idx/2+int(uint64(run.Seed)%4))%4]}
 	n := len(flagPool)
@@ -1023,6 +1044,15 @@ func (c *cs) buildState() {
 	if len(cfg.Exclude) > 0 {
 		c.mustGit(c.main, "config", "config", "lfs.fetchexclude", strings.Join(cfg.Exclude, ","))
 	}
+	switch cfg.IncludeVia {
+	case "local":
+		c.mustGit(c.main, "config", "config", "lfs.fetchinclude", strings.Join(cfg.Include, ","))
+	case "global":
+		if res := c.env.Run(sbx.RunOpt{Dir: c.env.Root}, "git", "config", "--global", "lfs.fetchinclude", strings.Join(cfg.Include, ",")); !res.OK() {
+			panic("cannot write global lfs.fetchinclude: " + res.String())
+		}
+		c.note("config-global", c.env.Root, "git", "config", "--global", "lfs.fetchinclude", strings.Join(cfg.Include, ","))
+	}
 	if cfg.PruneCfg != "unset" {
 		c.mustGit(c.main, "config", "config", "lfs.pruneremotetocheck", cfg.PruneCfg)
 	}
@@ -1112,8 +1142,28 @@ func runCase(run *evid.Run, idx int) {
 			cwd, cwdTop = c.wts[0], c.wts[0]
 		}
 	}
+	if cfg.IncludeVia == "lfsconfig" {
+		// untracked .lfsconfig in the worktree the command runs in (lfs.fetchinclude is one of the keys allowed there)
+		c.write(cwdTop, ".lfsconfig", []byte("[lfs]\n\tfetchinclude = "+strings.Join(cfg.Include, ",")+"\n"))
+		c.note("lfsconfig", cwdTop, "write .lfsconfig", "lfs.fetchinclude="+strings.Join(cfg.Include, ","))
+	}
 	orc := c.computeOracle()
 	orc.addRecentCommits(c, cwdTop)
+	outside := 0
+	if len(cfg.Include) > 0 {
+		seen := map[string]bool{}
+		for _, cl := range clauseOrder {
+			for oid := range orc.clause[cl] {
+				if !seen[oid] && orc.outsideInclude(cl, oid) {
+					seen[oid] = true
+				}
+			}
+		}
+		outside = len(seen)
+		run.Count("cases_with_fetchinclude_set", 1)
+		run.Count("cases_with_fetchinclude_"+cfg.IncludeKind+"_via_"+strings.ReplaceAll(cfg.IncludeVia, "-", "_"), 1)
+		run.Count("must_retain_objects_with_all_paths_outside_fetchinclude", int64(outside))
+	}
 	for cl, n := range orc.sizes() {
 		run.Count("must_retain_"+cl, int64(n))
 	}
@@ -1205,9 +1255,21 @@ func runCase(run *evid.Run, idx int) {
 		if inv.Damage != "" {
 			caseTrig = "scan-failure/" + inv.Damage
 		}
+		kvs := append([]kv(nil), inv.Cfg...)
+		prog, argv := "git-lfs", inv.Argv
 		cmdline := "git lfs " + strings.Join(inv.Argv, " ")
-		if len(inv.Env) > 1 {
-			cmdline += " [" + strings.Join(inv.Env[1:], " ") + "]"
+		switch cfg.IncludeVia {
+		case "env":
+			kvs = append(kvs, kv{"lfs.fetchinclude", strings.Join(cfg.Include, ",")})
+		case "dash-c":
+			prog = "git"
+			argv = append([]string{"-c", "lfs.fetchinclude=" + strings.Join(cfg.Include, ","), "lfs"}, inv.Argv...)
+			cmdline = "git " + strings.Join(argv, " ")
+		}
+		var invEnv []string
+		if len(kvs) > 0 {
+			invEnv = configEnv(kvs)
+			cmdline += " [" + strings.Join(invEnv[1:], " ") + "]"
 		}
 		// restore the full store
 		for oid, b := range content {
@@ -1227,7 +1289,7 @@ func runCase(run *evid.Run, idx int) {
 			}
 		}
 		before := localOids(gitDir)
-		res := env.Run(sbx.RunOpt{Dir: cwd, Env: inv.Env}, "git-lfs", inv.Argv...)
+		res := env.Run(sbx.RunOpt{Dir: cwd, Env: invEnv}, prog, argv...)
 		after := localOids(gitDir)
 		for _, oid := range removedForFetch {
 			run.Count("fetch_route_objects_removed_before_the_run", 1)
@@ -1252,6 +1314,13 @@ func runCase(run *evid.Run, idx int) {
 			wt += "," + cfg.WtKind2
 		}
 		class := fmt.Sprintf("trigger=%s|attr=%s|ambient=%s|cwd=%s|wt=%s|%s,prune-remote=%s,remoterefs=%s|flags=%s", c.trigger(), cfg.AttrID, cfg.AmbID, cfg.Cwd, wt, remotes, pr, cfg.RemoteRefs, fl)
+		if cfg.IncludeKind != "unset" {
+			class += "|include=" + cfg.IncludeKind + "@" + cfg.IncludeVia
+			run.Count("prune_runs_with_fetchinclude_set", 1)
+			if outside > 0 && !has(flags, "--dry-run") {
+				run.Count("prune_runs_judging_objects_with_all_paths_outside_fetchinclude", 1)
+			}
+		}
 		if inv.Via != "prune" {
 			class += "|via=" + inv.Via + "(" + inv.Note + ")"
 			run.Count("prune_runs_via_fetch_prune", 1)
@@ -1343,6 +1412,12 @@ func runCase(run *evid.Run, idx int) {
 							trig = t
 						}
 					}
+					if inv.Damage == "" && orc.outsideInclude(cl, oid) {
+						// every path under which this clause needs the object lies outside lfs.fetchinclude: that
+						// setting is the coordinate, whatever else the case contains
+						trig = "fetchinclude-set"
+						why += fmt.Sprintf("; lfs.fetchinclude=%s (set via %s) matches none of its paths", strings.Join(cfg.Include, ","), cfg.IncludeVia)
+					}
 					flag(cl+"-object-pruned", trig, oid, why)
 				}
 			}
@@ -1376,7 +1451,7 @@ func runCase(run *evid.Run, idx int) {
 			what := fmt.Sprintf("%s (exit %d) deleted %d object(s) it must retain [%s], e.g. %s: %s", cmdline, res.Code, len(objs), sig.Symptom, objs[0]["oid"], objs[0]["why"])
 			run.Violation(sig, what, c.detail(flags, map[string]any{"objects": objs, "symptom": sig.Symptom, "prune_stdout": sbx.Trunc(res.Stdout, 600), "prune_stderr": sbx.Trunc(res.Stderr, 600), "lost_on_server": lost, "halted": halted, "command": cmdline, "damage": dmgDetail(dmg, inv)}))
 		}
-		run.Case(class, map[string]any{"case": idx, "class": class, "days": []int{cfg.RefsDays, cfg.CommitsDays, cfg.OffsetDays}, "fetchexclude": cfg.Exclude, "remote": cfg.Remote, "prune_remote": cfg.PruneRemote(), "second_remote": cfg.Second, "fetchrecentremoterefs": cfg.RemoteRefs, "features": keys(c.feat), "worktree_kinds": wt, "needed_only_by_prunable_worktree": onlyPrunable,
+		run.Case(class, map[string]any{"case": idx, "class": class, "days": []int{cfg.RefsDays, cfg.CommitsDays, cfg.OffsetDays}, "fetchexclude": cfg.Exclude, "fetchinclude": cfg.Include, "fetchinclude_via": cfg.IncludeVia, "must_retain_outside_fetchinclude": outside, "remote": cfg.Remote, "prune_remote": cfg.PruneRemote(), "second_remote": cfg.Second, "fetchrecentremoterefs": cfg.RemoteRefs, "features": keys(c.feat), "worktree_kinds": wt, "needed_only_by_prunable_worktree": onlyPrunable,
 			"objects_before": len(before), "deleted": len(deleted), "exit": res.Code, "via": inv.Via, "damage": dmgDetail(dmg, inv), "must_retain": orc.sizes(), "history_ops": len(c.g.Log), "state_steps": len(c.steps)})
 	}
 	for f := range c.feat {
@@ -1400,12 +1475,13 @@ func main() {
 	if os.Getenv("VERIF_C05_KEEP") == "" {
 		defer sbx.RemoveBase()
 	}
-	run.Rule = "per repository: histgen history (branches, merges incl. octopus, orphan branches, tags, renames/copies/deletes, symlinks, exec bits, empty files, >=2 LFS files per commit in 3/4 of the cases) with commit ages drawn from {0.5,1.5,2.5,5,9,12,30} days; partial push (whole branch / ancestor / nothing / tags) through the pre-push hook to the in-driver fake LFS server; seeded plan over {local commits with 1-3 LFS files, delete+modify commits, stash plain/-u/--keep-index/--staged, staged files, unreachable objects, detached HEAD, branch switches, extra worktrees (detached or on a new branch, with staged file / local commit / stash; at the end 1/4 of them lose their directory, a third of those locked), text files moving in and out of LFS tracking, later pushes, stash drop, objects deleted on the server} x lfs.fetchrecentrefsdays/fetchrecentcommitsdays/pruneoffsetdays in {0,1,3,7} x lfs.fetchexclude patterns x prune remote name x cwd {top, sub-directory, extra worktree} x attribute spelling {track line, text, eol=lf, text eol=lf, diff=custom; tagged: binary, -diff, custom driver declared binary} x ambient ~/.gitconfig profile (9 harmless profiles; tagged: diff.noprefix, log.showroot=false, diff.relative) x remotes {single; in 1/3 of the cases a second remote `upstream` with its own LFS store, 2-3 branches with fresh objects pushed only to it with tip ages on both sides of the recent-refs window, one more pushed only to the first remote, local branches deleted (sometimes kept)} x lfs.pruneremotetocheck {unset, first remote, upstream} x lfs.fetchrecentremoterefs {unset, true, false} x a pushed recent branch `vb` whose commit inside the recent-commits window measured from its own tip replaces an LFS file (when both windows are > 0) x final worktree states: one dedicated extra worktree per case with kind by case index in {present, present+staged LFS file, present detached, directory removed (Git: prunable), removed detached, removed + git worktree lock, removed + git worktree prune (registration gone)}, a second one in half of the cases; in 3/4 (always for kind removed) its HEAD is a dedicated commit aged 30 days with two fresh LFS files, pushed to the prune remote, so that only the registered worktree's checkout needs them; occasionally git worktree prune as last step x flag sets {--dry-run + X, (none), --recent, --force, --verify-remote, +--verify-unreachable, +--when-unverified=continue, combinations}. Route: `git lfs prune <flags>`, and 1-2 runs per case through `git lfs fetch --prune [remote]` (verification via lfs.pruneverifyremotealways / lfs.pruneverifyunreachablealways, --dry-run, with and without lfs.fetchrecentalways and the remote argument; two objects of HEAD removed before so that the fetch part downloads). Last in every case: scan-failure runs: after the must-retain set was computed, one loose Git object a scan needs {stash commit / tree, newest unpushed commit / its tree, HEAD~1, HEAD's tree, tree of a recent branch tip, HEAD commit of another registered worktree} is deleted / emptied / overwritten with garbage, or refs/heads/broken is planted pointing at a missing commit (kind by case index, first applicable), then prune with (none) and one of {--verify-remote [--when-unverified=continue], --recent, --force} (+ fetch --prune in 1/3). One evaluation = one such run on the fully restored store. Class = (known trigger in the case, attribute spelling, ambient profile, cwd kind, kinds of the dedicated worktrees, remotes/prune remote/fetchrecentremoterefs, flags). Each period of 18 cases has 10 without any known trigger and 8 with exactly one."
+	run.Rule = "per repository: histgen history (branches, merges incl. octopus, orphan branches, tags, renames/copies/deletes, symlinks, exec bits, empty files, >=2 LFS files per commit in 3/4 of the cases) with commit ages drawn from {0.5,1.5,2.5,5,9,12,30} days; partial push (whole branch / ancestor / nothing / tags) through the pre-push hook to the in-driver fake LFS server; seeded plan over {local commits with 1-3 LFS files, delete+modify commits, stash plain/-u/--keep-index/--staged, staged files, unreachable objects, detached HEAD, branch switches, extra worktrees (detached or on a new branch, with staged file / local commit / stash; at the end 1/4 of them lose their directory, a third of those locked), text files moving in and out of LFS tracking, later pushes, stash drop, objects deleted on the server} x lfs.fetchrecentrefsdays/fetchrecentcommitsdays/pruneoffsetdays in {0,1,3,7} x lfs.fetchexclude patterns x lfs.fetchinclude {unset, matching part of the paths, matching nothing, matching everything} set via {.git/config, ~/.gitconfig, git -c, GIT_CONFIG_COUNT/KEY/VALUE, untracked .lfsconfig of the worktree the command runs in} (by case index, crossed with the drawn fetchexclude; expected to change nothing) x prune remote name x cwd {top, sub-directory, extra worktree} x attribute spelling {track line, text, eol=lf, text eol=lf, diff=custom; tagged: binary, -diff, custom driver declared binary} x ambient ~/.gitconfig profile (9 harmless profiles; tagged: diff.noprefix, log.showroot=false, diff.relative) x remotes {single; in 1/3 of the cases a second remote `upstream` with its own LFS store, 2-3 branches with fresh objects pushed only to it with tip ages on both sides of the recent-refs window, one more pushed only to the first remote, local branches deleted (sometimes kept)} x lfs.pruneremotetocheck {unset, first remote, upstream} x lfs.fetchrecentremoterefs {unset, true, false} x a pushed recent branch `vb` whose commit inside the recent-commits window measured from its own tip replaces an LFS file (when both windows are > 0) x final worktree states: one dedicated extra worktree per case with kind by case index in {present, present+staged LFS file, present detached, directory removed (Git: prunable), removed detached, removed + git worktree lock, removed + git worktree prune (registration gone)}, a second one in half of the cases; in 3/4 (always for kind removed) its HEAD is a dedicated commit aged 30 days with two fresh LFS files, pushed to the prune remote, so that only the registered worktree's checkout needs them; occasionally git worktree prune as last step x flag sets {--dry-run + X, (none), --recent, --force, --verify-remote, +--verify-unreachable, +--when-unverified=continue, combinations}. Route: `git lfs prune <flags>`, and 1-2 runs per case through `git lfs fetch --prune [remote]` (verification via lfs.pruneverifyremotealways / lfs.pruneverifyunreachablealways, --dry-run, with and without lfs.fetchrecentalways and the remote argument; two objects of HEAD removed before so that the fetch part downloads). Last in every case: scan-failure runs: after the must-retain set was computed, one loose Git object a scan needs {stash commit / tree, newest unpushed commit / its tree, HEAD~1, HEAD's tree, tree of a recent branch tip, HEAD commit of another registered worktree} is deleted / emptied / overwritten with garbage, or refs/heads/broken is planted pointing at a missing commit (kind by case index, first applicable), then prune with (none) and one of {--verify-remote [--when-unverified=continue], --recent, --force} (+ fetch --prune in 1/3). One evaluation = one such run on the fully restored store. Class = (known trigger in the case, attribute spelling, ambient profile, cwd kind, kinds of the dedicated worktrees, remotes/prune remote/fetchrecentremoterefs, flags). Each period of 18 cases has 10 without any known trigger and 8 with exactly one."
 	run.Assumptions = []string{
 		"must-retain is a lower bound: weakest readings are documented in oracle.go (checkout = HEAD tree of every non-bare entry of `git worktree list --porcelain`, directory present or not, until `git worktree prune` unregisters it; index only of worktrees whose directory exists; recent remote refs = tips of remote-tracking branches of every remote unless lfs.fetchrecentremoterefs=false; stash = objects the stash commits add relative to their base commit; recent refs = local branches only; previous versions = pointers replaced by a pointer or deleted in a non-merge commit reachable through in-window commits; unpushed = in a tree of a commit reachable from a local branch/tag and in no tree of a commit reachable from refs/remotes/<prune remote>/*; fetchexclude exempts generously; --force waives everything but unpushed)",
 		"commit ages are >= 12 h away from every window boundary; the only use of the wall clock is the base time the ages are subtracted from",
 		"objects reachable from the remote-tracking refs were uploaded by the pre-push hook (the fake server loses only the objects the driver deletes)",
 		"scan-failure runs are judged against the must-retain set computed BEFORE the damage (for the flags given), whatever prune's exit status; no Git plumbing of the oracle runs on the damaged repository; a damage prune does not stumble over (it succeeds) is only counted",
+		"lfs.fetchinclude has no influence on any must-retain clause (git-lfs-prune(1) and the property name lfs.fetchexclude only); an object all of whose retaining paths lie outside the include patterns carries the trigger fetchinclude-set",
 		"git 2.39.5, TZ=UTC",
 	}
 	n := run.N(18, 198)
